@@ -296,6 +296,10 @@ func checkC06(prop, tier string) int {
 	var samples []any
 	for i, r := range results {
 		if r.Crashed || r.Err != "" {
+			if v := crashViolation(pool, "C06", jobs[i], r); v != nil {
+				viols = append(viols, *v)
+				continue
+			}
 			infra++
 			fmt.Fprintf(os.Stderr, "INFRA: c06 job %d: %s %s\n", i, r.Err, tail(r.Stderr, 800))
 			continue
